@@ -95,6 +95,13 @@ def step (st : St) (line : String) : St × String :=
   | ["new", d, q, iv, _tasks, cap, _cq], _ => newRt st d q iv cap
   | "stress" :: _, _ => (st, "round ok")
   | ["cancelprobe", _], _ => (st, "probe done")
+  | ["turn", _, _], _ => (st, "turn ok")
+  -- public Runtime methods that are not polls: no effect on the wake-up state, except `inline` = one pushed operation
+  | ["api", "inline"], some s =>
+    match pushN 1 s with
+    | some s' => ({ st with s := some s' }, "ok")
+    | none => (st, "model-stuck")
+  | ["api", _], some _ => (st, "ok")
   | ["wake"], some s => wakeCall st s .main
   | ["wakex"], some s => wakeCall st s .main
   | ["twake", t], some s =>
